@@ -649,3 +649,138 @@ Proof.
   - destruct (P eq_refl) as (h1 & Hs & E). apply slashing_le in Hs. lia.
   - destruct (Q eq_refl) as (A & B & C). destruct (NoDU_sums _ C). unfold booked. lia.
 Qed.
+
+(** ** which messages each hub handler can emit *)
+Definition hub_emit_ok (hm : hub_msg) (m : cmsg) : Prop :=
+  match m with
+  | MWasm _ _ f => f = []
+  | MBank _ _ => hm = HWithdraw
+  | MDelegate _ _ => hm = HBond \/ hm = HBondSt \/ hm = HBondRewards
+  | MUndelegate _ _ => exists u a, hm = HReceive u a HkUnbond
+  | MRedelegate s _ _ => exists l, hm = HRedelProxy s l
+  | MWithdrawReward _ => exists n, hm = HUpdateGlobal n
+  | MSetWithdrawAddr a => exists b c d e f g, hm = HConfig (Some a) b c d e f g
+  end.
+
+Lemma execute_unbond_shape w h self amount user h' out :
+  execute_unbond w h self amount user = Some (h', out) ->
+  exists msgs tok, out = msgs ++ [MWasm tok (WCw20 (CBurn amount)) []] /\
+                   forall m, In m msgs -> exists v c, m = MUndelegate v c.
+Proof.
+  unfold execute_unbond. intros H.
+  bind_inv H as h1 Hh1. bind_inv H as supply Hs. bind_inv H as awf Hawf. bind_inv H as reqb Hreqb.
+  bind_inv H as h2 Hh2. bind_inv H as supply' Hs'. bind_inv H as ber Hber.
+  bind_inv H as r Hr. destruct r as [h4 msgs].
+  apply maybe_undelegate_books in Hr. destruct Hr as (_ & _ & _ & R4).
+  bind_inv H as tok Htok. inversion H; subst h' out. exists msgs, tok. split; [reflexivity|].
+  intros m Hi. destruct (R4 m Hi) as (v & a & -> & _). eauto.
+Qed.
+
+Lemma execute_unbond_stsei_shape w h self amount user h' out :
+  execute_unbond_stsei w h self amount user = Some (h', out) ->
+  exists msgs tok, out = msgs ++ [MWasm tok (WCw20 (CBurn amount)) []] /\
+                   forall m, In m msgs -> exists v c, m = MUndelegate v c.
+Proof.
+  unfold execute_unbond_stsei. intros H.
+  bind_inv H as h1 Hh1. bind_inv H as reqst Hreq. bind_inv H as h2 Hh2.
+  bind_inv H as r Hr. destruct r as [h4 msgs].
+  apply maybe_undelegate_books in Hr. destruct Hr as (_ & _ & _ & R4).
+  bind_inv H as tok Htok. inversion H; subst h' out. exists msgs, tok. split; [reflexivity|].
+  intros m Hi. destruct (R4 m Hi) as (v & a & -> & _). eauto.
+Qed.
+
+Lemma convert_shape w h self amount user h' out :
+  convert_stsei_bsei w h self amount user = Some (h', out) \/
+  convert_bsei_stsei w h self amount user = Some (h', out) ->
+  exists a b c d, out = [MWasm a (WCw20 b) []; MWasm c (WCw20 d) []].
+Proof.
+  intros [H|H].
+  - unfold convert_stsei_bsei in H.
+    bind_inv H as h1 Hh1. bind_inv H as stok E1. bind_inv H as btok E2. bind_inv H as de E3.
+    bind_inv H as tm E4. bind_inv H as bs E5. bind_inv H as ss E6. bind_inv H as mint E7.
+    bind_inv H as bb E8. bind_inv H as bst E9. bind_inv H as a10 E10. bind_inv H as a11 E11.
+    bind_inv H as a12 E12. bind_inv H as a13 E13. inversion H; subst. eauto.
+  - unfold convert_bsei_stsei in H.
+    bind_inv H as h1 Hh1. bind_inv H as stok E1. bind_inv H as btok E2.
+    bind_inv H as bs E5. bind_inv H as ss E6. bind_inv H as awf E7. bind_inv H as de E3.
+    bind_inv H as tm E4. bind_inv H as bb E8. bind_inv H as bst E9. bind_inv H as a10 E10.
+    bind_inv H as a11 E11. bind_inv H as a12 E12. bind_inv H as a13 E13. inversion H; subst. eauto.
+Qed.
+
+(** C02 (d), handler level: the hub sends coins out of its balance only in WithdrawUnbonded (bank
+    send to the caller) and as Delegate messages of the three bond handlers; no message the hub
+    emits to another contract carries funds *)
+Theorem hub_execute_emits w h self sender funds hm h' out :
+  hub_execute w h self sender funds hm = Some (h', out) -> Forall (hub_emit_ok hm) out.
+Proof.
+  unfold hub_execute. intros H. apply Forall_forall. intros m Hi.
+  destruct hm.
+  - check_inv H as Hp. apply bond_delegates_all in H.
+    destruct H as (pay & h1 & g & _ & _ & _ & _ & _ & _ & _ & _ & _ & _ & Hall).
+    destruct (Hall m Hi) as [(v & c & ->)|(tok & mint & ->)]; cbn; auto.
+  - check_inv H as Hp. apply bond_delegates_all in H.
+    destruct H as (pay & h1 & g & _ & _ & _ & _ & _ & _ & _ & _ & _ & _ & Hall).
+    destruct (Hall m Hi) as [(v & c & ->)|(tok & mint & ->)]; cbn; auto.
+  - check_inv H as Hp. apply bond_delegates_all in H.
+    destruct H as (pay & h1 & g & _ & _ & _ & _ & _ & _ & _ & _ & _ & _ & Hall).
+    destruct (Hall m Hi) as [(v & c & ->)|(tok & mint & ->)]; cbn; auto.
+  - check_inv H as Hp. apply execute_update_global_pools in H.
+    destruct H as (_ & _ & d & hooks & _ & Hh & ->).
+    apply in_app_or in Hi. destruct Hi as [Hi|Hi]; [destruct (Hh m Hi) as (a & ->); reflexivity|].
+    apply in_app_or in Hi. destruct Hi as [Hi|Hi].
+    + apply in_map_iff in Hi. destruct Hi as (x & <- & _). cbn. eauto.
+    + destruct Hi as [<-|[<-|[]]]; reflexivity.
+  - check_inv H as Hp. apply execute_withdraw_pools in H. destruct H as (_ & _ & amount & _ & _ & ->).
+    destruct Hi as [<-|[]]. reflexivity.
+  - check_inv H as Hp. bind_inv H as h1 Hh1. inversion H; subst. destruct Hi.
+  - apply update_params_spec in H. destruct H as (_ & _ & _ & -> & _). destruct Hi.
+  - check_inv H as Hp. unfold execute_update_config in H.
+    check_inv H as C1. check_inv H as C2. check_inv H as C3. inversion H; subst.
+    destruct disp; [|destruct Hi]. destruct Hi as [<-|[]]. cbn. repeat eexists.
+  - check_inv H as Hp. check_inv H as Hs. inversion H; subst. destruct Hi.
+  - check_inv H as Hp. check_inv H as Hs. inversion H; subst. destruct Hi.
+  - check_inv H as Hp. bind_inv H as reg Hreg. check_inv H as Hs. inversion H; subst.
+    apply in_map_iff in Hi. destruct Hi as (x & <- & _). cbn. eauto.
+  - check_inv H as Hp. check_inv H as Hs. bind_inv H as t Ht. check_inv H as Hb. inversion H; subst.
+    destruct Hi as [<-|[]]. reflexivity.
+  - check_inv H as Hp. bind_inv H as reg Hreg. check_inv H as Hs. inversion H; subst.
+    destruct Hi as [<-|[<-|[]]]; reflexivity.
+  - destruct (paused h); [|discriminate]. inversion H; subst. destruct Hi.
+  - check_inv H as Hp. unfold receive_cw20 in H. bind_inv H as b Hb. bind_inv H as st Hst.
+    destruct h0; [| |discriminate].
+    + assert (S : exists msgs tok, out = msgs ++ [MWasm tok (WCw20 (CBurn amt)) []] /\
+                                   forall m, In m msgs -> exists v c, m = MUndelegate v c).
+      { destruct (sender =? b); [eapply execute_unbond_shape; eauto|].
+        destruct (sender =? st); [eapply execute_unbond_stsei_shape; eauto|discriminate]. }
+      destruct S as (msgs & tok & -> & Hm). apply in_app_or in Hi. destruct Hi as [Hi|[<-|[]]].
+      * destruct (Hm m Hi) as (v & c & ->). cbn. eauto.
+      * reflexivity.
+    + assert (S : exists a b c d, out = [MWasm a (WCw20 b) []; MWasm c (WCw20 d) []]).
+      { destruct (sender =? b); [eapply convert_shape; eauto|].
+        destruct (sender =? st); [eapply convert_shape; eauto|discriminate]. }
+      destruct S as (a1 & b1 & c1 & d1 & ->). destruct Hi as [<-|[<-|[]]]; reflexivity.
+Qed.
+
+(** the staking coins leaving the hub in one handler: the payment for the bond handlers, nothing
+    for every other handler *)
+Lemma hub_execute_dsum w h self sender funds hm h' out :
+  hub_execute w h self sender funds hm = Some (h', out) ->
+  (hm = HBond \/ hm = HBondSt \/ hm = HBondRewards ->
+     exists pay, funds = [pay] /\ fst pay = hp_underlying (h_params h) /\ dsum out = snd pay) /\
+  (~ (hm = HBond \/ hm = HBondSt \/ hm = HBondRewards) -> dsum out = 0).
+Proof.
+  intros H.
+  assert (B : forall k, execute_bond w h self sender funds k = Some (h', out) ->
+              exists pay, funds = [pay] /\ fst pay = hp_underlying (h_params h) /\ dsum out = snd pay).
+  { intros k Hk. apply bond_delegates_all in Hk.
+    destruct Hk as (pay & h1 & g & A & B & _ & _ & _ & C & _). eauto. }
+  pose proof (hub_execute_books _ _ _ _ _ _ _ _ H) as (P & Q & _).
+  unfold hub_execute in H.
+  destruct hm; try (split; [intros [E|[E|E]]; discriminate E | intros _]);
+    try (destruct (Q eq_refl) as (_ & _ & C); apply NoDU_sums; exact C).
+  - check_inv H as Hp. split; [intros _; eapply B; eauto | intros N; exfalso; apply N; auto].
+  - check_inv H as Hp. split; [intros _; eapply B; eauto | intros N; exfalso; apply N; auto].
+  - check_inv H as Hp. split; [intros _; eapply B; eauto | intros N; exfalso; apply N; auto].
+  - check_inv H as Hp. bind_inv H as h1 Hh1. inversion H; subst. reflexivity.
+  - check_inv H as Hp. apply receive_cw20_books in H. tauto.
+Qed.
